@@ -11,16 +11,22 @@ import common
 from common import time_limit, Timeout, hex6
 
 ID = "C19"
-GEN_DEPENDS = []
+GEN_DEPENDS = ["C19Kernels"]
 RULE = ("histories of 1-10 operations (concatenate, export_character_indices/_subset, fill, fill_taxa, pack, add_/replace_/"
-        "update_/extend_sequences, extend_matrix, remove_/discard_/keep_sequences, new_character_subset, matrix[taxon] get/set/del, new_sequence, clear, items, len/max_sequence_size) over a pool of 2-5 matrices of one of the 8 "
+        "update_/extend_sequences, extend_matrix, remove_/discard_/keep_sequences, new_character_subset, matrix[taxon] get/set/del, new_sequence, clear, items, len/max_sequence_size/sequence_size/vector_size, taxon-in-matrix) over a pool of 2-5 matrices of one of the 8 "
         "data types, two namespaces (the second one foreign), partial taxon overlap, ragged and rectangular rows, labels drawn "
         "from a small colliding set (None, equal, equal up to case, generated locusNNN / x_002 forms), the same object passed "
         "twice and as its own argument; every iterable argument (taxa, indices, values, streams, paths) passed as list, tuple, "
         "generator, map, filter, reversed, iter, chain, deque, dict view, set/frozenset or TaxonNamespace, in orders unrelated to the row order; plus concatenate_from_streams / concatenate_from_paths on NEXUS sources; thorough adds the exhaustive small scope "
         "(2 taxa, every row-presence x length pattern, every binary op pair, every fill/pack/remove/discard/keep/export argument, "
-        "every label list up to length 3). non-trivial = at least two rows and one non-empty row among the operands, or a "
-        "concatenation of >= 2 matrices")
+        "every label list up to length 3). Every 6th case is a WORLD history (reference semantics): 1-9 calls on a pool of 2-3 matrix "
+        "objects named by position — the matrix as its own argument (add/replace/update/extend/extend_matrix(m, m), "
+        "remove_/discard_/keep_sequences(m) with a MATRIX as the taxa argument, also m itself), the same object several times in "
+        "concatenate, copy construction, exports — and, in half of them, sequence objects shared by the user (m[t] = n's sequence "
+        "object, copy.copy) followed by exports / extensions / fills of the matrix that holds an object twice; after every call the "
+        "whole pool and the partition of dict entries into shared objects are compared with the heap model. "
+        "non-trivial = at least two rows and one non-empty row among the operands, or a "
+        "concatenation of >= 2 matrices, or (world) a call after the first on a pool with a non-empty row")
 MODELLED_NOT_VERIFIED = [
     "C19: the Lean model of charmatrixmodel.CharacterMatrix (rows as an insertion-ordered association list, subsets as an "
     "ordered caseless association list) is hand-written; it is tied to the code by the per-operation comparison of the full "
@@ -39,10 +45,22 @@ MODELLED_NOT_VERIFIED = [
     "C19: hang detection counts process CPU time (2 s; 40 s wall backstop), so machine load cannot produce a Timeout",
     "C19: concatenate([]) and a namespace without taxa raise IndexError in the library; treated as outside the statement, compared "
     "with the model only (thorough tier)",
-    "C19: 'arguments unchanged' and absence of aliasing are checked by fingerprinting every matrix of the pool before and after "
-    "each call (value semantics make them trivial in the model); namespaces are not mutated during a history",
+    "C19: 'arguments unchanged' in the value-level ops is a fingerprint of every matrix of the pool before and after each call; in "
+    "the world histories it is the frame clause of the heap model (Model/C19Heap.lean, hand-written: sequence objects = addresses, "
+    "matrix objects = pool positions), proved for pools without shared objects (Sep) and compared with the code after every call "
+    "also on pools WITH shared objects; namespaces are not mutated during a history",
+    "C19: with sequence objects shared by the user (m[t] = <sequence object>, copy.copy) the in-place operations are outside the "
+    "statement (a change through one entry is a change through the other by the language's semantics): there the oracle judges the "
+    "frame clause for matrices that share nothing with the target, 'no operation of the library creates sharing', and the "
+    "operations that only READ their operands (export_*, concatenate, copy construction) in full; the rest is model comparison",
+    "C19: the heap model's export filters every object of the clone once (rows keyed by a taxon outside the namespace, which the "
+    "value-level exportIdx leaves unfiltered as the code does, do not occur in world histories: wf_preserved)",
+    "C19: Sep, StepOK, FreshOK, metas, validRun, argViews, HCall.library are specification-side definitions",
+    "C19: Gen/C19Kernels.lean (label formats, search start/step, the re-bound name of the search loop, guard order, span, padding "
+    "test and insert position, export loop bounds) is regenerated from charmatrixmodel.py by harness/gen/c19kernels.py, a hand-written "
+    "recogniser of the shapes listed in its docstring (anything else: Unsupported)",
 ]
-EXPLANATION = ("96 theorems in Props/C19.lean about the definitions drv_c19 runs (Model/C19.lean, Model/C19Ext.lean), none _partial. "
+EXPLANATION = ("113 theorems in Props/C19.lean about the definitions drv_c19 runs (Model/C19.lean, Model/C19Ext.lean, Model/C19Heap.lean), none _partial. "
                "(d) add_spec, replace_spec, update_spec, extend_spec, extendMatrix_spec/_eq, remove_spec / remove_untouched / remove_ok_iff / "
                "remove_partial_state, discard_spec, keep_spec, rowOp_spec. Element access: getItem_spec (matrix[taxon] creates a missing row), "
                "getItem_idempotent, setItem_spec, newSequence_spec, delItem_spec, itemsOf_spec (namespace order), maxSeqSize_spec. "
@@ -62,8 +80,21 @@ EXPLANATION = ("96 theorems in Props/C19.lean about the definitions drv_c19 runs
                "concat_wf, concat_keys_nodup (well-formedness is invariant under every operation, so the hypotheses compose along any "
                "history). (e) termination: all model functions total; padLoop and freeFrom are well-founded recursions without fuel; "
                "measures explicit in padLoop_measure_step, freeFrom_probes_bound (Model: pending_decreases), delLoop_length_le; "
-               "freeName_fresh / freeName_first. 'Arguments unchanged' is value semantics in the model and a fingerprint check on the "
-               "implementation.")
+               "freeName_fresh / freeName_first. ALIASING (reference semantics, Model/C19Heap.lean = the same operations on matrix objects "
+               "over a heap of sequence objects, run by the driver as op `world`): on a pool without shared sequence objects (Sep) "
+               "hBin_sim — self.op(other) for the six row operations, other ANY pool object, also self (hBin_self: m.extend_matrix(m), "
+               "m.update_sequences(m)…: live reading of the argument = reading a snapshot) — hUnary_sim, hUnaryM_snapshot (the taxa "
+               "argument is a matrix, also the matrix itself: the generator consumed while rows are deleted yields what it would have "
+               "yielded before), hFill_sim, hElement_sim, hCloneWith_sim (copy construction / export: one new object per row) each "
+               "state: the rows of the target = the value-level result, the rows of EVERY other matrix object unchanged (arguments "
+               "unchanged), nothing but rows touched, no sharing created; hBin_guard (refusal = rowOp's); hStep_sep / hRun_sep: along any "
+               "history of library calls, with any operands, the pool stays without shared objects; hConcat_sim: concatenate on objects "
+               "(the same object named several times included) = concatenate on the values of the named matrices, all arguments "
+               "unchanged, the new matrix shares nothing; initWorld_sep: the pool a driver history starts from (one object per row) is "
+               "without sharing, so the histories the driver runs without setseq/copy are in the scope of these theorems. Not proved: "
+               "views (initWorld ms) = ms (compared). TIE A (Gen/C19Kernels.lean): "
+               "gen_labels, gen_search, gen_concat_round, gen_pad, gen_export bridge the regenerated kernels to locus/cand/freeName/"
+               "freeFrom/concatStep/padLoop/delLoop.")
 
 CLASSES = {
     "dna": "DnaCharacterMatrix", "rna": "RnaCharacterMatrix", "nucleotide": "NucleotideCharacterMatrix",
@@ -304,7 +335,11 @@ def execute(env, pool, op):
                 m.new_character_subset(op["label"], wrap(op.get("kind"), op["idx"]))
                 return "ok", None
             if name == "sizes":
-                return "ok", [len(m), m.max_sequence_size]
+                return "ok", [len(m), m.max_sequence_size, m.sequence_size, m.vector_size]
+            if name == "contains":
+                t = env.taxon_of[op["t"]]
+                return "ok", [t in m, (t.label in m) if op["t"] in env.ns_gids(env.ns_index(m.taxon_namespace)) else None,
+                              t in list(iter(m))]
             if name == "fill":
                 return "ok", m.fill(env.value(m, op["value"]), size=op["size"], append=op["append"])
             if name == "fill_taxa":
@@ -504,11 +539,21 @@ def oracle(env, op, pre, post, status, res, ret, pool_ids, res_id):
     if name == "sizes":
         if status != "ok":
             return bad + [("exception", "len / max_sequence_size raised %s" % status)]
-        want = [len(s.rows), max([len(r) for r in s.rows.values()] or [0])]
+        first = len(s.rows[s.order[0]]) if s.order else 0      # "number of characters in *first* sequence"
+        want = [len(s.rows), max([len(r) for r in s.rows.values()] or [0]), first, first]
         if list(ret) != want:
-            bad.append(("sizes", "len, max_sequence_size = %s, the rows say %s" % (ret, want)))
+            bad.append(("sizes", "len, max_sequence_size, sequence_size, vector_size = %s, the rows say %s" % (ret, want)))
         if p.key() != s.key():
             bad.append(("argument-changed", "reading len / max_sequence_size changed the matrix"))
+        return bad
+    if name == "contains":
+        if status != "ok":
+            return bad + [("exception", "`taxon in matrix` raised %s" % status)]
+        want = op["t"] in s.rows
+        if ret[0] != want or ret[1] not in (None, want) or (ret[2] != want and op["t"] in env.ns_gids(s.ns)):
+            bad.append(("sizes", "taxon in matrix / label in matrix / taxon in iter(matrix) = %s, the rows say %s" % (ret, want)))
+        if p.key() != s.key():
+            bad.append(("argument-changed", "`taxon in matrix` changed the matrix"))
         return bad
     if name == "new_subset":
         taken = op["label"].lower() in [k.lower() for k, _ in s.subs]
@@ -653,6 +698,8 @@ def model_line(env, op, pre):
         return "%s %s" % (name, m)
     if name == "sizes":
         return "sizes " + m
+    if name == "contains":
+        return "contains %s %d" % (m, op["t"])
     if name == "new_subset":
         return "new_subset %s %s %d %s" % (m, hex6(op["label"]), len(op["idx"]), " ".join(str(i) for i in op["idx"]))
     if name in BINARY:
@@ -672,7 +719,9 @@ def impl_line(op, status, post, res, ret):
     if name == "items":
         return " ".join(["ok"] + ["%d=%s" % (g, ".".join(str(c) for c in r)) for g, r in ret]) if status == "ok" else status
     if name == "sizes":
-        return "ok %s %s" % (ret[0], ret[1]) if status == "ok" else status
+        return "ok %s %s %s" % (ret[0], ret[1], ret[2]) if status == "ok" else status
+    if name == "contains":
+        return "ok %d" % (1 if ret[0] else 0) if status == "ok" else status
     if name == "fill":
         return "ok %s %s" % (ret, p.state()) if status == "ok" else status
     if name == "remove":
@@ -731,7 +780,7 @@ def run_history(ctx, dendropy, hist, pending, shrink=True, gen=None, nops=0):
             return False
         creating = op["op"] in ("concat", "export_idx", "export_sub")
         res = Snap(env, out) if (creating and status == "ok") else None
-        ret = out if op["op"] in ("fill", "sizes", "getitem", "items") else None
+        ret = out if op["op"] in ("fill", "sizes", "contains", "getitem", "items") else None
         post = [Snap(env, m) for m in pool]
         problems = oracle(env, op, pre, post, status, res, ret, pool_ids, id(out) if creating else None)
         ctx.case([hist["dtype"], [s.key() for s in pre], op], nontrivial(op, pre),
@@ -880,7 +929,9 @@ def gen_op(rng, env, pre, max_w):
     elif r < 0.53:
         op = {"op": "fill_taxa", "m": m}
     elif r < 0.55:
-        op = {"op": rng.choice(["sizes", "items"]), "m": m}
+        op = {"op": rng.choice(["sizes", "items", "contains"]), "m": m}
+        if op["op"] == "contains":
+            op["t"] = rng.choice(own if (own and rng.random() < 0.8) else sorted(env.taxon_of))
     elif r < 0.585:
         univ = own if rng.random() < 0.85 else sorted(env.taxon_of)
         name = rng.choice(["getitem", "getitem", "setitem", "newseq", "delitem", "clear"])
@@ -1118,6 +1169,369 @@ def gen_stream_case(rng):
     return case
 
 
+
+# ------------------------------------------------------------------------------------------------ reference semantics ("world")
+# The pool as OBJECTS: operands are named by pool position (equal positions = the matrix is its own argument, or occurs twice in
+# a list), sequence objects may be shared between dict entries (`m[t] = n._taxon_sequence_map[u]`, `copy.copy(m)`), and the whole
+# pool — every matrix and the partition of dict entries into shared objects — is compared with `Model/C19Heap.lean` after EVERY call.
+WBIN = {"add": "add_sequences", "replace": "replace_sequences", "update": "update_sequences", "extend": "extend_sequences",
+        "extend_new": "extend_sequences", "extend_matrix": "extend_matrix"}
+WFRESH = ("clone", "export_idx", "export_sub", "concat", "copy")
+
+
+def share_slots(env, pool):
+    """[(pool position, taxon gid, id of the sequence object)] in canonical order"""
+    out = []
+    for i, m in enumerate(pool):
+        ent = sorted((env.gid_of.get(id(t), -1), id(seq)) for t, seq in m._taxon_sequence_map.items())
+        out += [(i, g, a) for g, a in ent]
+    return out
+
+
+def share_groups(slots):
+    groups, seen = [], set()
+    for i, g, a in slots:
+        if a in seen:
+            continue
+        seen.add(a)
+        grp = [(x, y) for x, y, b in slots if b == a]
+        if len(grp) >= 2:
+            groups.append(grp)
+    return groups
+
+
+def groups_string(groups):
+    return ",".join("+".join("%d:%d" % s for s in grp) for grp in groups)
+
+
+def world_string(snaps, groups):
+    return " ".join(["M " + s.state() for s in snaps] + (["A", groups_string(groups)] if groups else ["A"]))
+
+
+def wcall_tokens(c):
+    n = c["op"]
+    if n in WBIN or n in ("remove_m", "discard_m", "keep_m"):
+        return "%s %d %d" % (n, c["i"], c["j"])
+    if n in ("remove", "discard", "keep"):
+        return "%s %d %d %s" % (n, c["i"], len(c["taxa"]), " ".join(str(g) for g in c["taxa"]))
+    if n in ("fill", "pack"):
+        return "%s %d %d %s %d" % (n, c["i"], c["value"], "N" if c["size"] is None else c["size"], 1 if c["append"] else 0)
+    if n in ("fill_taxa", "clear", "clone", "copy"):
+        return "%s %d" % (n, c["i"])
+    if n in ("getitem", "delitem"):
+        return "%s %d %d" % (n, c["i"], c["t"])
+    if n in ("setitem", "newseq"):
+        return "%s %d %d %d %s" % (n, c["i"], c["t"], len(c["row"]), " ".join(str(x) for x in c["row"]))
+    if n == "new_subset":
+        return "new_subset %d %s %d %s" % (c["i"], hex6(c["label"]), len(c["idx"]), " ".join(str(x) for x in c["idx"]))
+    if n == "export_idx":
+        return "export_idx %d %d %s" % (c["i"], len(c["idx"]), " ".join(str(x) for x in c["idx"]))
+    if n == "export_sub":
+        return "export_sub %d %s" % (c["i"], hex6(c["label"]))
+    if n == "concat":
+        return "concat %d %s" % (len(c["args"]), " ".join(str(x) for x in c["args"]))
+    if n == "setseq":
+        return "setseq %d %d %d %d" % (c["i"], c["t"], c["j"], c["u"])
+    raise RuntimeError("unknown world call " + n)
+
+
+def wexecute(env, pool, c):
+    """one call on the objects of the pool; returns (status, new matrix or None, returned value or None)"""
+    import copy as _copy
+    n = c["op"]
+    try:
+        with cpu_limit(TL):
+            if n == "concat":
+                return "ok", env.cls.concatenate([pool[k] for k in c["args"]]), None
+            m = pool[c["i"]]
+            if n in WBIN:
+                if n == "extend_new":
+                    m.extend_sequences(pool[c["j"]], is_add_new_sequences=True)
+                else:
+                    getattr(m, WBIN[n])(pool[c["j"]])
+                return "ok", None, None
+            if n in ("remove_m", "discard_m", "keep_m"):
+                getattr(m, n[:-2] + "_sequences")(pool[c["j"]])
+                return "ok", None, None
+            if n in ("remove", "discard", "keep"):
+                getattr(m, n + "_sequences")(wrap(c.get("kind"), [env.taxon_of[g] for g in c["taxa"]], env.dp))
+                return "ok", None, None
+            if n == "fill":
+                return "ok", None, m.fill(env.value(m, c["value"]), size=c["size"], append=c["append"])
+            if n == "pack":
+                m.pack(value=env.value(m, c["value"]), size=c["size"], append=c["append"])
+                return "ok", None, None
+            if n == "fill_taxa":
+                m.fill_taxa()
+                return "ok", None, None
+            if n == "getitem":
+                return "ok", None, [env.code(v) for v in m[env.taxon_of[c["t"]]].values()]
+            if n == "setitem":
+                m[env.taxon_of[c["t"]]] = [env.value(m, x) for x in c["row"]]
+                return "ok", None, None
+            if n == "setseq":
+                m[env.taxon_of[c["t"]]] = pool[c["j"]]._taxon_sequence_map[env.taxon_of[c["u"]]]
+                return "ok", None, None
+            if n == "newseq":
+                m.new_sequence(env.taxon_of[c["t"]], [env.value(m, x) for x in c["row"]])
+                return "ok", None, None
+            if n == "delitem":
+                del m[env.taxon_of[c["t"]]]
+                return "ok", None, None
+            if n == "clear":
+                m.clear()
+                return "ok", None, None
+            if n == "new_subset":
+                m.new_character_subset(c["label"], list(c["idx"]))
+                return "ok", None, None
+            if n == "clone":
+                return "ok", env.cls(m), None
+            if n == "copy":
+                return "ok", _copy.copy(m), None
+            if n == "export_idx":
+                return "ok", m.export_character_indices(wrap(c.get("kind"), c["idx"])), None
+            if n == "export_sub":
+                return "ok", m.export_character_subset(c["label"]), None
+            raise RuntimeError("unknown world call " + n)
+    except Timeout:
+        return "Timeout", None, None
+    except ValueError:
+        return "ValueError", None, None
+    except KeyError:
+        return "KeyError", None, None
+    except IndexError:
+        return "IndexError", None, None
+    except RuntimeError:
+        raise
+    except Exception as e:
+        return "Internal(%s)" % type(e).__name__, None, None
+
+
+def as_pool_op(env, c, pre):
+    """the call in the vocabulary of `oracle` (pool positions as operands), or None for the two sharing calls"""
+    n = c["op"]
+    if n in WBIN:
+        return {"op": n, "m": c["i"], "o": c["j"]}
+    if n in ("remove_m", "discard_m", "keep_m"):
+        o = pre[c["j"]]
+        return {"op": n[:-2], "m": c["i"], "taxa": [g for g in env.ns_gids(o.ns) if g in o.rows]}
+    if n in ("remove", "discard", "keep"):
+        return {"op": n, "m": c["i"], "taxa": c["taxa"]}
+    if n in ("fill", "pack"):
+        return {"op": n, "m": c["i"], "value": c["value"], "size": c["size"], "append": c["append"]}
+    if n in ("fill_taxa", "clear"):
+        return {"op": n, "m": c["i"]}
+    if n in ("getitem", "delitem"):
+        return {"op": n, "m": c["i"], "t": c["t"]}
+    if n in ("setitem", "newseq"):
+        return {"op": n, "m": c["i"], "t": c["t"], "row": c["row"]}
+    if n == "new_subset":
+        return {"op": n, "m": c["i"], "label": c["label"], "idx": c["idx"]}
+    if n == "export_idx":
+        return {"op": n, "m": c["i"], "idx": c["idx"]}
+    if n == "export_sub":
+        return {"op": n, "m": c["i"], "by": "label", "label": c["label"]}
+    if n == "concat":
+        return {"op": n, "args": c["args"]}
+    return None
+
+
+def world_oracle(env, c, pre, post, pre_slots, post_slots, status, res, ret, pool_ids, res_id):
+    """the statement on objects.  `pre_slots` / `post_slots` = share_slots before / after."""
+    n = c["op"]
+    if status == "Timeout":
+        return [("Timeout", "%s did not return within %.0f s" % (n, TL))]
+    if status.startswith("Internal"):
+        return [("exception", "%s raised %s" % (n, status))]
+    bad = []
+    npre = len(pre)
+    obj_of = {}
+    for i, g, a in pre_slots:
+        obj_of.setdefault(i, set()).add(a)
+    shared_pre = bool(share_groups(pre_slots))
+    target = None if n in WFRESH else c["i"]
+    # (1) frame: a matrix none of whose sequence objects is held by the matrix the call was made on must not change
+    for j in range(npre):
+        if j == target:
+            continue
+        if target is not None and obj_of.get(j, set()) & obj_of.get(target, set()):
+            continue
+        if pre[j].key() != post[j].key():
+            bad.append(("argument-changed", "%s changed matrix %d of the pool, which shares no sequence object with the matrix it was "
+                        "called on: %s -> %s" % (n, j, pre[j].state(), post[j].state())))
+    # (2) the library never makes two dict entries hold one object (only `m[t] = obj` and copy.copy do); a deep copy mirrors its source
+    if n not in ("setseq", "copy"):
+        old = {(i, g): a for i, g, a in pre_slots}
+        new = {(i, g): a for i, g, a in post_slots}
+        for grp in share_groups(post_slots):
+            for x in grp:
+                for y in grp:
+                    if x >= y:
+                        continue
+                    if x[0] < npre and y[0] < npre:
+                        ok = x in old and y in old and old[x] == old[y] and new[x] == old[x]
+                    elif x[0] >= npre and y[0] >= npre and n in ("clone", "export_idx", "export_sub"):
+                        sx, sy = (c["i"], x[1]), (c["i"], y[1])
+                        ok = sx in old and sy in old and old[sx] == old[sy]
+                    else:
+                        ok = False
+                    if not ok:
+                        bad.append(("aliasing", "%s: entries %s and %s hold one sequence object afterwards, which they did not before" % (n, x, y)))
+        if n in ("clone", "export_idx", "export_sub") and status == "ok":
+            for x in [(c["i"], g) for i, g, a in pre_slots if i == c["i"]]:
+                for y in [(c["i"], g) for i, g, a in pre_slots if i == c["i"]]:
+                    if x < y and old[x] == old[y] and new.get((npre, x[1])) != new.get((npre, y[1])):
+                        bad.append(("aliasing", "%s: entries %s and %s hold one object in the source but two in the deep copy" % (n, x, y)))
+    if n in WFRESH and status == "ok" and res_id in pool_ids:
+        bad.append(("aliasing", "%s returned one of the existing matrices" % n))
+    # (3) what the statement says about values
+    pop = as_pool_op(env, c, pre)
+    if n in ("export_idx", "export_sub", "concat") or (pop is not None and not shared_pre):
+        # creating calls only read their operands: judged on every pool; in-place calls: on pools without shared objects
+        bad += [b for b in oracle(env, pop, pre, post[:npre], status, res, ret, pool_ids, res_id) if b not in bad]
+    elif n == "clone":
+        if status != "ok":
+            bad.append(("exception", "copy construction raised %s" % status))
+        elif res.key() != pre[c["i"]].key():
+            bad.append(("clone", "copy construction: %s -> %s" % (pre[c["i"]].state(), res.state())))
+    elif n == "copy":
+        if status != "ok":
+            bad.append(("exception", "copy.copy raised %s" % status))
+        elif (res.rows, res.ns, res.label) != (pre[c["i"]].rows, pre[c["i"]].ns, pre[c["i"]].label):
+            bad.append(("clone", "copy.copy: %s -> %s" % (pre[c["i"]].state(), res.state())))
+    elif n == "setseq":
+        s = pre[c["i"]]
+        want_status = "ok" if c["t"] in env.ns_gids(s.ns) else "ValueError"
+        if status != want_status:
+            bad.append(("element", "m[t] = <sequence object>: %s, expected %s" % (status, want_status)))
+        elif status == "ok":
+            want = dict(s.rows)
+            want[c["t"]] = pre[c["j"]].rows[c["u"]]
+            if post[c["i"]].rows != want:
+                bad.append(("element", "m[t] = <sequence object>: rows %s, expected %s" % (post[c["i"]].state(), state_string(want, []))))
+    return bad
+
+
+def gen_wcall(rng, env, pre, slots, max_w, sharing):
+    n = len(pre)
+    i = rng.randrange(n)
+    s = pre[i]
+    own = env.ns_gids(s.ns)
+    r = rng.random()
+    if sharing:
+        # a matrix two of whose entries hold one object: export / extend / fill it (each visits the object once per entry)
+        inner = [j for j in range(n) if len(set(a for x, g, a in slots if x == j)) < len([a for x, g, a in slots if x == j])]
+        if inner and rng.random() < 0.3:
+            j = rng.choice(inner)
+            u = rng.random()
+            if u < 0.5:
+                return {"op": "export_idx", "i": j, "idx": sorted(set(rng.randint(0, max_w) for _ in range(rng.randint(1, 3)))),
+                        "kind": rng.choice(["list", "tuple", "set"])}
+            if u < 0.75:
+                return {"op": rng.choice(["extend_matrix", "extend", "update"]), "i": j, "j": rng.randrange(n)}
+            return {"op": rng.choice(["fill", "pack"]), "i": j, "value": rng.randint(1, env.ncodes), "size": rng.randint(0, max_w + 2),
+                    "append": rng.random() < 0.6}
+    if sharing and r < 0.22:
+        if rng.random() < 0.3:
+            return {"op": "copy", "i": i}
+        cand = [(j, g) for j, g, a in slots]
+        if cand:
+            j, u = rng.choice(cand) if rng.random() < 0.5 else rng.choice([x for x in cand if x[0] == i] or cand)
+            univ = own if rng.random() < 0.9 else sorted(env.taxon_of)
+            return {"op": "setseq", "i": i, "t": rng.choice(univ), "j": j, "u": u}
+    if r < 0.50:
+        u = rng.random()
+        j = i if u < 0.35 else rng.randrange(n)        # the matrix as its own argument
+        return {"op": rng.choice(sorted(WBIN)), "i": i, "j": j}
+    if r < 0.58:
+        j = i if rng.random() < 0.5 else rng.randrange(n)
+        return {"op": rng.choice(["remove_m", "discard_m", "keep_m", "keep_m"]), "i": i, "j": j}
+    if r < 0.64:
+        name = rng.choice(["remove", "discard", "keep"])
+        taxa = [rng.choice(own) for _ in range(rng.randint(0, len(own)))] if own else []
+        if rng.random() < 0.7:
+            taxa = list(dict.fromkeys(taxa))
+        return {"op": name, "i": i, "taxa": taxa, "kind": rng.choice(["list", "tuple", "gen", "iter"])}
+    if r < 0.72:
+        return {"op": rng.choice(["fill", "pack"]), "i": i, "value": rng.randint(1, env.ncodes),
+                "size": None if rng.random() < 0.5 else rng.randint(0, max_w + 2), "append": rng.random() < 0.6}
+    if r < 0.75:
+        return {"op": "fill_taxa", "i": i}
+    if r < 0.82:
+        name = rng.choice(["getitem", "setitem", "newseq", "delitem", "clear"])
+        c = {"op": name, "i": i}
+        if name != "clear":
+            c["t"] = rng.choice(own if (own and rng.random() < 0.9) else sorted(env.taxon_of))
+        if name in ("setitem", "newseq"):
+            c["row"] = [rng.randint(1, env.ncodes) for _ in range(rng.randint(0, max_w))]
+        return c
+    if r < 0.85:
+        lab = rng.choice([l for l in LABELS if l is not None])
+        return {"op": "new_subset", "i": i, "label": lab, "idx": [rng.randint(0, max_w + 1) for _ in range(rng.randint(0, 4))]}
+    if n >= 7:
+        return {"op": "fill_taxa", "i": i}
+    if r < 0.89:
+        return {"op": "clone", "i": i}
+    if r < 0.94:
+        if s.subs and rng.random() < 0.4:
+            return {"op": "export_sub", "i": i, "label": rng.choice(s.subs)[0]}
+        return {"op": "export_idx", "i": i, "idx": [rng.randint(-1, max_w + 1) for _ in range(rng.randint(0, 5))],
+                "kind": rng.choice(["list", "tuple", "gen", "set"])}
+    k = rng.choice([1, 2, 2, 3])
+    args = [rng.randrange(n) for _ in range(k)]
+    if k >= 2 and rng.random() < 0.4:
+        args[-1] = args[0]
+    return {"op": "concat", "args": args}
+
+
+def world_case(ctx, dendropy, case, pending, gen=None, ncalls=0):
+    """case = {world: True, dtype, ns_sizes, init: [spec], calls: [call]}; with `gen`, `ncalls` calls are drawn one by one"""
+    env = Env(dendropy, case["dtype"], case["ns_sizes"])
+    pool = [env.build(spec) for spec in case["init"]]
+    start = " ".join(enc_matrix(env, Snap(env, m)) for m in pool)
+    npool0 = len(pool)
+    outs, toks = [], []
+    for k in range(ncalls if gen is not None else len(case["calls"])):
+        pre = [Snap(env, m) for m in pool]
+        pre_slots = share_slots(env, pool)
+        if gen is not None:
+            case["calls"].append(gen(env, pre, pre_slots))
+        c = case["calls"][k]
+        pool_ids = [id(m) for m in pool]
+        status, out, ret = wexecute(env, pool, c)
+        rep = {"world": True, "dtype": case["dtype"], "ns_sizes": case["ns_sizes"], "init": case["init"],
+               "calls": case["calls"][:k + 1], "op": "world:" + c["op"], "status": status}
+        kind = "world:" + c["op"] + (":self" if c.get("j") == c.get("i") and "j" in c else "")
+        ctx.case([case["dtype"], case["init"], case["calls"][:k + 1]], k >= 1 and any(r for s in pre for r in s.rows.values()),
+                 kind=kind, sample={"world": [s.state() for s in pre], "shared": groups_string(share_groups(pre_slots)), "call": c})
+        ctx.count("%s:%s%s" % (kind, status, ":shared-objects" if share_groups(pre_slots) else ""))
+        if status == "Timeout":
+            ctx.fail("Timeout-" + c["op"], "%s did not return within %.0f s of CPU time" % (c["op"], TL), rep)
+            return False
+        res = None
+        if out is not None:
+            pool.append(out)
+            res = Snap(env, out)
+        post = [Snap(env, m) for m in pool]
+        post_slots = share_slots(env, pool)
+        for kd, what in world_oracle(env, c, pre, post, pre_slots, post_slots, status, res, ret, pool_ids,
+                                     id(out) if out is not None else None):
+            ctx.fail(kd, what, rep)
+        if status.startswith("Internal"):
+            break
+        toks.append(wcall_tokens(c))
+        outs.append("%s %s" % (status, world_string(post, share_groups(post_slots))))
+    if pending is not None and toks:
+        pending.append(("world %d %s %d %s" % (npool0, start, len(toks), " ".join(toks)),
+                        {"op": {"op": "world"}, "case": {k: v for k, v in case.items()}}, " | ".join(["ok"] + outs)))
+    return True
+
+
+def gen_world_case(rng, ncodes_of, max_taxa, max_w):
+    h = gen_init(rng, ncodes_of, max_taxa, max_w)
+    return {"world": True, "dtype": h["dtype"], "ns_sizes": h["ns_sizes"], "init": h["init"][:3], "calls": []}
+
+
 # ------------------------------------------------------------------------------------------------ exhaustive small scope
 def row_patterns():
     """every presence x length pattern over 2 taxa, lengths 0..2; cell codes identify (taxon, position)"""
@@ -1264,6 +1678,14 @@ def run(ctx):
         if k % 12 == 5:
             fasta_case(ctx, dendropy, gen_fasta_case(rng), pending)
             continue
+        if k % 12 in (2, 8):
+            sharing = rng.random() < 0.5
+            world_case(ctx, dendropy, gen_world_case(rng, ncodes, ctx.pick(3, 4), ctx.pick(3, 4)), pending,
+                       gen=lambda env, pre, slots: gen_wcall(rng, env, pre, slots, ctx.pick(3, 4), sharing),
+                       ncalls=rng.randint(1, ctx.pick(6, 9)))
+            if len(pending) >= 2000:
+                flush(ctx, pending)
+            continue
         if k % 12 == 11:
             stream_case(ctx, dendropy, gen_stream_case(rng), pending)
             if any(f["kind"].startswith("Timeout") and f["replay"].get("stream") for f in ctx.failures[-1:]):
@@ -1288,11 +1710,51 @@ def run(ctx):
                                                    "export argument, every label list up to length 3 for concatenate" % n)
 
 
+def search(ctx, broken):
+    """obligations broke (a kernel of concatenate / fill / export_character_indices no longer regenerates, a bridge or property
+    theorem no longer builds) or implementation and model disagreed: hunt for an input on which the real code contradicts the
+    statement — histories made of concatenations over colliding labels (the name search, the guards, the recorded spans),
+    fill / pack with every size (the padding loop) and exports (the column filter), all judged by the oracle"""
+    if ctx.failures:
+        return
+    dendropy = __import__("dendropy")
+    rng = ctx.rng
+    pending = []
+    ncodes = ncodes_table(dendropy)
+    ctx.budget_s = (ctx.budget_s or 0) + ctx.pick(12, 120)
+    wanted = ("concat", "fill", "pack", "export_idx", "export_sub")
+
+    def gen(env, pre):
+        for _ in range(200):
+            op = gen_op(rng, env, pre, 4)
+            if op["op"] in wanted:
+                return op
+        return op
+
+    n = hangs = 0
+    for k in range(ctx.pick(3000, 60000)):
+        if ctx.out_of_time() or hangs >= 3 or len(ctx.failures) >= 5:
+            break
+        hist = gen_init(rng, ncodes, 4, 4)
+        for spec in hist["init"]:        # colliding labels, complete rectangular matrices: the search loop is entered
+            spec["label"] = rng.choice(["x", "X", "x_002", None, "locus001", "locus000"])
+        if not run_history(ctx, dendropy, hist, pending, gen=gen, nops=rng.randint(1, 6)):
+            hangs += 1
+        n += 1
+        if len(pending) >= 1000:
+            flush(ctx, pending)
+    flush(ctx, pending)
+    ctx.note("targeted search after broken obligations / disagreements: %d concatenate / fill / export histories" % n)
+
+
 def replay(ctx, rec):
     dendropy = __import__("dendropy")
     c = rec["replay"]
     pending = []
-    if c.get("fasta"):
+    if c.get("world"):
+        world_case(ctx, dendropy, {"world": True, "dtype": c["dtype"], "ns_sizes": c["ns_sizes"], "init": c["init"],
+                                   "calls": c["calls"]}, pending)
+    elif c.get("fasta"):
         fasta_case(ctx, dendropy, {"fasta": c["fasta"], "kind": c.get("kind")}, pending)
     elif c.get("stream"):
         stream_case(ctx, dendropy, {"labels": c["labels"], "titles": c["titles"], "rows": c["rows"],
